@@ -85,9 +85,10 @@ GROUP = {
             "contract": """
     requires account_width < 0x4000_0000, trailing < 0x4000_0000,
     ensures
-        r >= 2,                                                                             // @posting.two_spaces_before_assertion
-        // `=` is the last char of " =" right-aligned in r columns: same column as after an amount ending at 52 + trailing
-        account_width + 2 < 50 + trailing ==> 4 + account_width + r == 52 + trailing + 2,   // @posting.assertion_only_aligned
+        // r is the width into which " =" is right-aligned: the `=` is its last column, so r - 1 spaces precede it
+        r >= 3,                                                                             // @posting.two_spaces_before_assertion
+        // `=` lands in the same column as after an amount ending at 52 followed by `trailing` columns and " ="
+        account_width + 3 <= 50 + trailing ==> 4 + account_width + r == 52 + trailing + 2,  // @posting.assertion_only_aligned
 """,
         }),
     ],
